@@ -65,6 +65,8 @@ class C03(PropCheck):
             cs.append(("rf 1 1 new a rf24 0 ; a enter ; " + " ; ".join("a " + x for x in seq) + " ; a address 0 ; a get listen ; a get auto_ack",
                        f"pipe0-role-depth{k}"))
         res.exhaustive_blocks.append(f"all {len(core) ** k} sequences of {k} pipe-0 / role calls")
+        # every method with optional parameters, called with them omitted (documented defaults)
+        cs += [(gen_rf.defaults_session(rng), "documented-defaults") for _ in range(n // 2)]
         return cs
 
     def nontrivial(self, line, io):
@@ -149,6 +151,8 @@ class C03(PropCheck):
                         continue    # keep judging the rest of the session
                     out.append(Finding(l, f"op {k} `{call}`: {what}", det))
                     break
+        seen = {f.case for f in out}
+        out += [f for f in judge_defaults(triples, self.impl) if f.case not in seen]
         return out
 
 
